@@ -185,6 +185,10 @@ func (repo *StoragePeerRepository) Load(ctx context.Context) error {
 	}
 
 	// Reset
+	// The count is only a capacity hint. It is not trusted because the file could be damaged.
+	if count < 0 || int(count) > buffer.Len() {
+		count = 0
+	}
 	repo.list = make(PeerList, 0, count)
 
 	// Parse peers
@@ -254,13 +258,17 @@ func (repo *StoragePeerRepository) Clear(ctx context.Context) error {
 	return repo.store.Remove(ctx, repo.path)
 }
 
-func readPeer(r io.Reader, version uint8) (Peer, error) {
+func readPeer(r *bytes.Buffer, version uint8) (Peer, error) {
 	result := Peer{}
 
 	// Read address
 	var addressSize int32
 	if err := binary.Read(r, binary.LittleEndian, &addressSize); err != nil {
 		return result, err
+	}
+
+	if addressSize < 0 || int(addressSize) > r.Len() {
+		return result, errors.New("Invalid peer address size")
 	}
 
 	addressData := make([]byte, addressSize)
